@@ -386,6 +386,17 @@ func (fr *frame) concInt(v value) int64 {
 // concValue makes a scalar concrete.
 func (fr *frame) concValue(v value) value {
 	if s, ok := v.(symv); ok {
+		if c := fr.i.ctx; c.errText {
+			// the text of an error built with fmt.Errorf: rendered with one representative value
+			// of the symbolic operand, without deciding (pinning) that operand - the text of an
+			// error does not steer the code under test, and enumerating the operand's values
+			// only to print them multiplies paths
+			if st := c.subst(s.t); st.isConst() {
+				return mkConcrete(s.k, st.k)
+			}
+			c.ensureModel()
+			return mkConcrete(s.k, c.eval.eval(s.t))
+		}
 		return mkConcrete(s.k, fr.i.ctx.concretize(s.t))
 	}
 	return v
